@@ -2,7 +2,12 @@
 entropy tables, mutated ones, arbitrary bytes behind the dictionary magic and raw content, in the ASan+UBSan build; (2) round trips over
 compression supply modes x attach preferences x dedicated dict search x levels x decompression modes (incl. the multi-DDict table with up to
 40 other dictionaries), inputs built from dictionary pieces; every frame also decoded by the independent Lean decoder with the dictionary
-loaded by the decoder-side loader MODEL; (3) the frame records the dictionary's ID; the same dictionary under another ID is refused."""
+loaded by the decoder-side loader MODEL; (3) the frame records the dictionary's ID; the same dictionary under another ID is refused;
+(4) two directed (deterministic) families: `reuse_family` - dictionaries whose offset-code table suffices for the first block only (ZDICT_finalizeDictionary,
+dictgen.build_exact_of) x frames whose leading blocks are not emitted compressed (raw / RLE / tiny flushed block / mixtures, also compressed ones) followed by a
+block needing a larger offset code, on every block-emitting path (plain, block splitter, targetCBlockSize, LDM), plain + sanitizer build; `attach_family` - the
+product attach preference x dedicated dictionary search x forceMaxWindow x level for refCDict / loadDictionary (+ usingCDict, compressBegin_usingCDict) with
+row-match-finder, window, input size and dictionary kind rotating, in the sanitizer build with exact-size allocations."""
 import re
 import build, zv, frames, dictgen
 
@@ -51,6 +56,210 @@ def gen_dict(rng, kind=None):
     elif kind == "trunc":
         d = d[:rng.randrange(8, min(len(d), 160))]
     return kind, d
+
+
+# ---------------------------------------------------------------------------------------------------------------------------------------------
+# directed families (deterministic designs: the random generator only supplies contents / seeds, never decides whether a combination is run)
+
+BLOCK = 131072
+
+
+def run_resilient(exe, lines, timeout=3000, max_crashes=4):
+    """one answer per line; a line on which the harness dies (signal / sanitizer report) is answered 'CRASH ...' and the lines after it are run
+    in a fresh process, so that one crash neither hides the other combinations nor is attributed to the wrong one"""
+    out, rest, crashes = [], list(lines), 0
+    while rest:
+        rc, o, err = frames.run_lines(exe, rest, timeout=timeout)
+        o = o[:len(rest)]
+        if len(o) < len(rest) and o and not o[-1].startswith(("ok", "cerr", "derr", "MISMATCH", "bad", "err")):
+            o = o[:-1]          # a partly written line
+        out += o
+        if len(o) == len(rest):
+            break
+        m = re.search(r"(ERROR: \w+: [^\n]*|runtime error: [^\n]*)", err)
+        loc = [x for x in re.findall(r"#\d+ 0x\w+ in (\w+)", err) if not x.startswith("__")][:4]
+        out.append("CRASH rc=%s %s in %s" % (rc, m.group(1)[:160] if m else err[-160:].replace("\n", " "), "<".join(loc)))
+        crashes += 1
+        rest = rest[len(o) + 1:]
+        if crashes >= max_crashes:
+            out += ["SKIPPED"] * len(rest)
+            break
+    return out
+
+
+def judge_directed(ctx, family, ln, o, short, d, p, cm):
+    """the round-trip obligations of section (2)+(3) for a directed line; returns True when the line held"""
+    if o == "SKIPPED":
+        return True
+    if o.startswith("CRASH"):
+        ctx.violation("%s: the library crashed / the sanitizer reported while compressing or decompressing with a dictionary: %s (%s)" % (family, o[:300], short), dict(kind="monitor", family=family, op=ln, result=o[:3000]))
+        return False
+    if o.startswith("cerr"):
+        if "parameter" in o or "unsupported" in o.lower():
+            return True
+        ctx.violation("%s: compression with an accepted dictionary failed: %s (%s)" % (family, o, short), dict(kind="monitor", family=family, op=ln, result=o))
+        return False
+    if not o.startswith("ok"):
+        ctx.violation("%s: dictionary round trip broken: %s (%s)" % (family, o[:120], short), dict(kind="monitor", family=family, op=ln, result=o[:3000]))
+        return False
+    m = re.match(r"ok fid=(\d+) n=(\d+) in=(\w+) wrong=(\S+) frame=(\S+)", o)
+    fid, wrong = int(m.group(1)), m.group(4)
+    did = int.from_bytes(d[4:8], "little") if (len(d) >= 8 and d[:4] == dictgen.MAGIC.to_bytes(4, "little")) else 0
+    want = 0 if ((p.get(202) == 0 and cm in "rl") or cm in "pR") else did
+    good = True
+    if fid != want:
+        ctx.violation("%s: frame records dictionary ID %d, the dictionary's is %d (%s)" % (family, fid, want, short), dict(kind="monitor", family=family, op=ln, result=o[:300])); good = False
+    if wrong != "-" and fid != 0 and wrong != "dictionary_wrong":
+        ctx.violation("%s: frame naming dictionary %d decoded with the same dictionary under another ID: %s instead of dictionary_wrong (%s)" % (family, fid, wrong, short), dict(kind="monitor", family=family, op=ln, result=o[:300])); good = False
+    return good
+
+
+def first_block_only_dicts(rng, exe):
+    """dictionaries whose offset-code table covers exactly the codes the FIRST block can need (0..highbit(content + 128 KiB)), every one of them with a
+    non-zero probability: what ZDICT_finalizeDictionary / the trainers write, and dictgen.build_exact_of.  The compressor-side loader marks such a table
+    directly reusable ('valid'); from the second block on larger codes can be needed.  -> list of (kind, dictionary bytes, content size)"""
+    out = []
+    sizes = [3000, 60000, 110000]
+    lines = ["mkdict %d %d %d %d" % (n, rng.randrange(1 << 30), rng.randint(32768, (1 << 31) - 1), rng.choice([1, 3, 3, 6])) for n in sizes]
+    rc, o, err = frames.run_lines(exe, lines)
+    for n, h in zip(sizes, o):
+        if not h.startswith(("err", "bad")):
+            out.append(("zdict", bytes.fromhex(h), n))
+    for n in [20000, 60000, 140000, BLOCK - 8]:
+        alpha = rng.choice([b"abcdefghijklmnopqrstuvwxyz ,.\n", bytes(range(256))])
+        content = bytes(rng.choice(alpha) for _ in range(n))
+        d, meta = dictgen.build_exact_of(rng, content)
+        out.append(("exactof", d, n))
+    return out
+
+
+def reuse_family(ctx, exe, exe_s=None):
+    """FAMILY 'table reuse across blocks'.  The dictionary's entropy tables are the 'previous block' tables of every block until a block is emitted
+    compressed.  Frames whose first k blocks are NOT emitted compressed (incompressible -> raw, one repeated byte -> RLE, a tiny first block cut by an
+    early flush, mixtures), followed by a block with few sequences whose offsets need a code ABOVE the dictionary table's last one (copies from more than
+    2^(m+1) bytes back: dictionary content or the early input), a present high code and small ones; window logs that allow the distance; one level per
+    strategy class and more; every supply mode.  Also the boundary of the first-block rule (copies of the dictionary's first bytes at the end of block 1)."""
+    rng = ctx.rng
+    dicts = first_block_only_dicts(rng, exe)
+    all_levels_extra = [-5, -1, 2, 4, 6, 9, 13, 16, 19]
+    lines, meta = [], []
+    k = 0
+    for di, (kind, d, cn) in enumerate(dicts):
+        hdr = len(d) - cn
+        m = (cn + BLOCK).bit_length() - 1
+        far_lo = 1 << (m + 1)
+        preludes = [(["N%d" % BLOCK], 0), (["Z%d" % BLOCK], 0), (["N%d" % BLOCK, "N%d" % BLOCK], 0), (["T40", "N%d" % (BLOCK - 40), "N%d" % BLOCK], 40), (["Z%d" % BLOCK, "N%d" % BLOCK], 0), (["T7", "Z%d" % BLOCK], 7),
+                    (["G%d" % BLOCK, "T%d" % BLOCK], 0), (["T%d" % BLOCK, "N%d" % BLOCK], 0)]      # and after blocks that WERE emitted compressed (the plain "first block only" rule)
+        if cn == BLOCK - 8:
+            # boundary of the rule itself: the largest offsets the first block can hold (first dictionary bytes copied at the end of block 1), then the same one block later
+            preludes = [([], 0), (["T40"], 40), (["N%d" % BLOCK], 0)]
+        for pi, (pre, fchunk) in enumerate(preludes):
+            pre = list(pre)
+            plen = sum(int(x[1:]) for x in pre)
+            if cn != BLOCK - 8:
+                while plen + (BLOCK * 5) // 7 + cn < far_lo + 4096:       # the far copies of the last slots must really lie beyond the table's reach
+                    pre.append("N%d" % BLOCK); plen += BLOCK
+            body = "C%d:%d-%dx3:%d-%dx2:1000-30000x2" % (BLOCK, far_lo, far_lo + 70000, 1 << m, far_lo - 4000)
+            if cn == BLOCK - 8:
+                body = "C%d:999999999-999999999x4:1000-30000x3" % BLOCK
+            tail = ["G30000"] if (di + pi) % 2 else []
+            shape = "/".join(["H%d" % hdr] + pre + [body] + tail)
+            total = plen + BLOCK + (30000 if tail else 0)
+            need_wlog = max(19, (total + cn).bit_length())
+            levels = [1, 3, 5, 7] + [all_levels_extra[(k // 6 + j) % len(all_levels_extra)] for j in (0, 4)]
+            for lvl in levels:
+                if lvl >= 16 and total > 3 * BLOCK:
+                    lvl = 2
+                cm = "ucrlb"[k % 5]
+                dm = "udlr"[(k // 5) % 4]
+                attach = [0, 0, 2, 0, 1, 3][(k // 7) % 6]
+                p = {100: lvl}
+                wsel = (k // 3) % 3
+                if wsel or cm in "lb":
+                    p[101] = need_wlog + (1 if wsel == 2 else 0)
+                if k % 11 == 0: p[201] = 1
+                ln = "rts %s %s %d 0 %s %s %d 0 0 %s %d" % (d.hex(), cm, attach, frames.pstr(p), dm, rng.randrange(1 << 30), shape, fchunk)
+                lines.append(ln)
+                meta.append((kind, d, cm, dm, p, "%s dictionary (%d bytes, content %d, offset codes 0..%d), compress mode %s, attach %d, decompress mode %s, params %s, shape %s, first chunk %d" % (kind, len(d), cn, m, cm, attach, dm, frames.pstr(p), shape, fchunk)))
+                k += 1
+            # the other paths that emit a block (each keeps the table state itself): block splitter, sub-block (targetCBlockSize) emission, long-distance matcher as the source of far matches
+            for j, extra in enumerate([{1010: 1}, {130: [1340, 4096, 20000][(di + pi) % 3]}, {160: 1}]):
+                lvl = [1, 3, 5, 2, 4, -1][(di + pi + j) % 6]
+                cm = "ucrlb"[(k + j) % 5]
+                dm = "udlr"[(k // 5) % 4]
+                p = {100: lvl, 101: need_wlog}
+                p.update(extra)
+                ln = "rts %s %s 0 0 %s %s %d 0 0 %s %d" % (d.hex(), cm, frames.pstr(p), dm, rng.randrange(1 << 30), shape, fchunk)
+                lines.append(ln)
+                meta.append((kind, d, cm, dm, p, "%s dictionary (%d bytes, content %d, offset codes 0..%d), compress mode %s, attach 0, decompress mode %s, params %s, shape %s, first chunk %d" % (kind, len(d), cn, m, cm, dm, frames.pstr(p), shape, fchunk)))
+    order = sorted(range(len(lines)), key=lambda i: -(meta[i][4][100]))        # slow levels first: better packing of the workers
+    chunks = [[] for _ in range(16)]
+    for j, i in enumerate(order):
+        chunks[j % 16].append(i)
+    # plain build: what a user gets (a frame that does not decode); sanitizer build: an encoder walking a table that lacks the symbol reads outside it
+    jobs = [(exe, c, "") for c in chunks if c] + ([(exe_s, c, " [sanitizer build]") for c in chunks if c] if exe_s else [])
+    res = frames.parallel(lambda job: [(i, o, job[2]) for i, o in zip(job[1], run_resilient(job[0], [lines[i] for i in job[1]]))], jobs)
+    bad = 0
+    for i, o, tag in sorted(res):
+        kind, d, cm, dm, p, short = meta[i]
+        if not judge_directed(ctx, "table reuse across blocks" + tag, lines[i], o, short, d, p, cm):
+            bad += 1
+            if bad >= 6:
+                break
+    return lines
+
+
+def attach_family(ctx, exe_s):
+    """FAMILY 'how the dictionary's tables reach the working context', in the ASan+UBSan build (the input lives in an exact-size allocation): the full product
+    attach preference {default, attach, copy, load} x dedicated dictionary search {0,1} x forceMaxWindow {0,1} x one level per strategy (all lazy-class
+    levels) for a referenced CDict and for loadDictionary, plus compress_usingCDict / compressBegin_usingCDict; row match finder {auto, off, on}, input size
+    (below / above the attach cut-offs, unknown for the streamed mode) and dictionary (raw vocabulary text small / large, ZDICT, exact-OF) rotate."""
+    rng = ctx.rng
+    words = [bytes(rng.choice(b"abcdefghijklmnopqrstuvwxyz") for _ in range(rng.randint(3, 9))) for _ in range(300)]
+    text = b" ".join(rng.choice(words) for _ in range(24000))
+    dicts = [("raw", text[:30000]), ("raw", text[:100000])]
+    rc, o, err = frames.run_lines(exe_s, ["mkdict 20000 %d %d 5" % (rng.randrange(1 << 30), rng.randint(32768, (1 << 31) - 1))])
+    if o and not o[0].startswith(("err", "bad")):
+        dicts.append(("zdict", bytes.fromhex(o[0])))
+    dicts.append(("exactof", dictgen.build_exact_of(rng, text[5000:13000])[0]))
+    lines, meta = [], []
+    k = 0
+    combos = []
+    for lvl in [1, 3, 5, 6, 8, 10, 13, 16]:
+        for dds in (0, 1):
+            for attach in (0, 1, 2, 3):
+                for fmw in (0, 1):
+                    for cm in "rl":
+                        combos.append((lvl, dds, attach, fmw, cm))
+    for lvl in [3, 5, 6, 7, 9, 10, 12, 13]:
+        for dds in (0, 1):
+            for cm in "cb":
+                combos.append((lvl, dds, (lvl + dds) % 4, (lvl // 2 + dds) % 2, cm))
+    for (lvl, dds, attach, fmw, cm) in combos:
+        kind, d = dicts[k % len(dicts)]
+        p = {100: lvl}
+        if fmw: p[1000] = 1
+        row = (k // 4) % 3
+        if row: p[1011] = row
+        wl = [None, 17, None, 12, None, 10, 14][(k // 5) % 7]       # small windows: the dictionary scrolls out of reach inside the frame
+        if wl: p[101] = wl
+        size = [24000, 2000, 150000, 24000][(k // 2) % 4]
+        if lvl >= 13 and size > 24000: size = 40000
+        dm = "udlr"[(k // 3) % 4]
+        ln = "rt %s %s %d %d %s %s %d %d 0" % (d.hex(), cm, attach, dds, frames.pstr(p), dm, rng.randrange(1 << 30), size)
+        lines.append(ln)
+        meta.append((kind, d, cm, dm, p, "%s dictionary (%d bytes), compress mode %s, attach preference %d, dedicated dictionary search %d, decompress mode %s, params %s, %d bytes, sanitizer build" % (kind, len(d), cm, attach, dds, dm, frames.pstr(p), size)))
+        k += 1
+    chunks = [list(range(j, len(lines), 16)) for j in range(16)]
+    res = frames.parallel(lambda ch: list(zip(ch, run_resilient(exe_s, [lines[i] for i in ch]))), [c for c in chunks if c])
+    bad = 0
+    for i, o in sorted(res):
+        kind, d, cm, dm, p, short = meta[i]
+        if not judge_directed(ctx, "attach / copy / load x dedicated search", lines[i], o, short, d, p, cm):
+            bad += 1
+            if bad >= 6:
+                break
+    return lines
 
 
 def correspondence(ctx):
@@ -161,10 +370,17 @@ def correspondence(ctx):
                 ctx.violation("independent Lean decoder (dictionary loaded by the loader model) disagrees: %s, expected ok %s %s (%s)" % (r[:80], n, xx, short), dict(kind="tie-decoder", op=ln, model=r), no_input=True)
     ev += len(rl); distinct |= set(rl)
     samples.append(dict(op=rl[0][-200:], code=ro[0][:120] if ro else ""))
+    # ---------- (4) directed families ----------
+    t4 = ctx.elapsed()
+    l4 = reuse_family(ctx, exe, exe_s)
+    t5 = ctx.elapsed()
+    l5 = attach_family(ctx, exe_s)
+    ev += len(l4) + len(l5); distinct |= set(l4) | set(l5)
+    directed = dict(table_reuse_across_blocks=len(l4), attach_matrix_sanitizer=len(l5), seconds=[round(t5 - t4, 1), round(ctx.elapsed() - t5, 1)])
     return dict(evaluations=ev, distinct_nontrivial=len(distinct),
                 rule="load lines (dictionary families x both loaders, sanitizer build) + rt lines (accepted dictionary x supply mode x attach x dedicated search x parameters x decode mode x input); distinct = distinct op lines",
                 samples=samples[:3], loader_outcomes={"%s C=%s D=%s" % k: v for k, v in sorted(kinds.items())}, mode_pairs={"%s->%s" % k: v for k, v in sorted(modes.items())},
-                frames_decoded_by_lean=len(ml))
+                frames_decoded_by_lean=len(ml), directed_families=directed)
 
 
 def search_failing_input(ctx, broken, log):
@@ -186,4 +402,10 @@ def search_failing_input(ctx, broken, log):
 def replay(ctx, data):
     op = data.get("op") or data.get("witness", {}).get("op")
     rc, out, err = frames.run_lines(hx("plain"), [op])
-    return dict(violates=not (out and out[0].startswith(("ok", "C="))), result=[o[:300] for o in out])
+    bad = not (out and out[0].startswith(("ok", "C=")))
+    res = [o[:300] for o in out]
+    if not bad and data.get("family"):          # directed families also run in the sanitizer build
+        rc, out, err = frames.run_lines(hx("san"), [op])
+        bad = not (out and out[0].startswith(("ok", "C=")))
+        res += ["sanitizer build: " + (out[0][:300] if out else err[-600:])]
+    return dict(violates=bad, result=res)
